@@ -5,6 +5,7 @@ import (
 	"flag"
 	"fmt"
 	"os"
+	"runtime/pprof"
 	"strconv"
 	"strings"
 )
@@ -69,6 +70,11 @@ func main() {
 		}
 	}
 	code := 0
+	if pf := os.Getenv("VERIF_PROF"); pf != "" {
+		f, _ := os.Create(pf)
+		pprof.StartCPUProfile(f)
+		defer pprof.StopCPUProfile()
+	}
 	func() {
 		defer cleanupScratch()
 		switch os.Args[1] {
@@ -111,6 +117,7 @@ func main() {
 			usage()
 		}
 	}()
+	pprof.StopCPUProfile()
 	os.Exit(code)
 }
 
